@@ -67,6 +67,11 @@ pub fn c18_l3_send_sync() {
 #[kani::proof]
 #[kani::unwind(20)]
 #[kani::stub(zeroize::optimization_barrier, noop_barrier)]
+#[kani::stub(hkdf::HkdfExtract::new, crate::fasthkdf::stub_extract_new)]
+#[kani::stub(hkdf::HkdfExtract::input_ikm, crate::fasthkdf::stub_input_ikm)]
+#[kani::stub(hkdf::HkdfExtract::finalize, crate::fasthkdf::stub_finalize)]
+#[kani::stub(hkdf::Hkdf::from_prk, crate::fasthkdf::stub_from_prk)]
+#[kani::stub(hkdf::Hkdf::expand_multi_info, crate::fasthkdf::stub_expand_multi_info)]
 pub fn c18_l1_sender_after_sender() {
     let b1: [u8; RNG_CAP] = kani::any();
     let b2: [u8; RNG_CAP] = kani::any();
@@ -106,6 +111,11 @@ pub fn c18_l1_sender_after_sender() {
 #[kani::proof]
 #[kani::unwind(20)]
 #[kani::stub(zeroize::optimization_barrier, noop_barrier)]
+#[kani::stub(hkdf::HkdfExtract::new, crate::fasthkdf::stub_extract_new)]
+#[kani::stub(hkdf::HkdfExtract::input_ikm, crate::fasthkdf::stub_input_ikm)]
+#[kani::stub(hkdf::HkdfExtract::finalize, crate::fasthkdf::stub_finalize)]
+#[kani::stub(hkdf::Hkdf::from_prk, crate::fasthkdf::stub_from_prk)]
+#[kani::stub(hkdf::Hkdf::expand_multi_info, crate::fasthkdf::stub_expand_multi_info)]
 pub fn c18_l1_receiver_after_ops() {
     let sk1: u16 = kani::any();
     let enc1: u16 = kani::any();
